@@ -24,7 +24,7 @@ RULE = (
     "composition laws cast->sum-back and shares*totals.  Configuration signature = (operation, source letters/lengths, request, spelling)"
 )
 
-REGIMES = ["tagged", "dyadic", "real", "taint", "ints"]
+REGIMES = ["tagged", "dyadic", "real", "taint", "ints", "wide"]
 
 
 def spellings(U, letters, mode):
